@@ -96,6 +96,7 @@ RE = {
     "durfields": re.compile(r"(-?)P(?:([0-9]+)Y)?(?:([0-9]+)M)?(?:([0-9]+)D)?(?:T(?:([0-9]+)H)?(?:([0-9]+)M)?(?:([0-9]+)(?:\.([0-9]+))?S)?)?"),
 }
 B64 = "ABCDEFGHIJKLMNOPQRSTUVWXYZabcdefghijklmnopqrstuvwxyz0123456789+/"
+_XMLCHARS = re.compile("[\t\n\r\x20-\ud7ff\ue000-\ufffd\U00010000-\U0010ffff]*")
 
 
 def _dim(y, m):
@@ -134,6 +135,8 @@ def xsd_parse(dt, s):
         return ("ok", -v if neg else v)
     if dt == "boolean":
         return {"true": ("ok", True), "1": ("ok", True), "false": ("ok", False), "0": ("ok", False)}.get(s)
+    if dt in STRINGY and dt != "language" and not _XMLCHARS.fullmatch(s):
+        return None    # XML 1.0 Char: the value space of xsd:string
     if dt in ("string", "anyURI"):
         return ("ok", s)
     if dt == "normalizedString":
@@ -742,7 +745,7 @@ def gen_decimal_lex(rng):
     return rng.choice(["", "", "+", "-", "-"]) + body
 
 
-_ALPH = "abcXYZ019 -_.:/#?&=%+é€漢\U0001F600"
+_ALPH = "abcXYZ019 -_.:/#?&=%+é€漢\U0001F600\u00a0\u2003\x0b"
 
 
 def gen_string(rng, kind):
@@ -756,7 +759,9 @@ def gen_string(rng, kind):
     chars = _ALPH + ("\t\n\r" if kind == "string" else "")
     s = "".join(rng.choice(chars) for _ in range(n))
     if kind == "token":
-        s = " ".join(s.split())
+        s = " ".join(s.split(" ")).strip(" ")
+        while "  " in s:
+            s = s.replace("  ", " ")
     return s
 
 
@@ -993,6 +998,9 @@ def _lit_for_eq(rng, fam):
         s = rng.choice(["", "a", "a ", "A", "1", "true", "é"])
         return rng.choice([{"dt": None, "cps": [ord(c) for c in s], "norm": True}, {"dt": "string", "cps": [ord(c) for c in s], "norm": True},
                            {"v": {"t": "str", "cps": [ord(c) for c in s]}}])
+    if fam in ("token", "normalizedString"):
+        s = rng.choice(["a", " a", "a ", "a b", "a  b", "a\tb", "\na b", "", " "])
+        return {"dt": fam, "cps": [ord(c) for c in s], "norm": rng.random() < 0.5}
     if fam == "boolean":
         return rng.choice([{"dt": "boolean", "cps": [ord(c) for c in rng.choice(["true", "false", "1", "0", "TRUE", "x"])], "norm": rng.random() < 0.5},
                            {"v": {"t": "bool", "v": rng.randint(0, 1)}}])
@@ -1031,7 +1039,8 @@ def gen_case(rng, tier, i):
         return {"kind": "lex", "dt": dt, "cps": [ord(c) for c in s], "intent": intent}
     if r < 0.83:
         return {"kind": "py", "v": gen_pyspec(rng)}
-    fam = rng.choice(["numeric", "numeric", "numeric", "string", "boolean", "duration", "dayTimeDuration", "date", "time", "dateTime", "hexBinary", "float"])
+    fam = rng.choice(["numeric", "numeric", "numeric", "string", "boolean", "duration", "dayTimeDuration", "date", "time", "dateTime", "hexBinary",
+                      "float", "token", "normalizedString"])
     a = _lit_for_eq(rng, fam)
     q = rng.random()
     if q < 0.2:
